@@ -87,6 +87,22 @@ CLAIMS["C13"] = {
     "technique": "MIR path rule: Option None-edge must not propagate straight to a failure return",
 }
 
+
+CLAIMS["C06"] = {
+    "text": "Decides structural conditions of memory safety in the unchecked build: element/position twins of every decoder step identically on all "
+            "paths (SIBPOS, symbolic path summaries); direction-generic code steps with mirror-image primitives under `Dir::FORWARD` (MIRROR); the "
+            "single-char-loop dispatch is total, so no unreachable!() is reachable (SCM); explicit panic sites on the match path are triaged (PANICS).",
+    "note": COMMON_NOTE + "Not decided: that indices carried by bytecode are in range and that positions stay on boundaries for all inputs (the emitter/interpreter contract is value-level).",
+    "technique": "symbolic path summaries of sibling step functions + control-dependence rule on direction switches + explicit-panic inventory",
+}
+CLAIMS["C14"] = {
+    "text": "Decides, in the utf16 configuration (never compiled by the baseline), that Utf16Input and Ucs2Input element/position twins step "
+            "identically on all paths including lone surrogates and both ends (SIBPOS), that Ucs2Input never pairs surrogates, and that the "
+            "configuration's explicit panic sites are triaged (PANICS).",
+    "note": COMMON_NOTE + "Not decided: offset translation and agreement of results with the UTF-8 entry points (value-level).",
+    "technique": "symbolic path summaries of sibling step functions under --features utf16",
+}
+
 PENDING = "rules for this property are designed (DESIGN.md §3/§4) but not built yet; nothing is claimed until they exist"
 
 NOT_APPLICABLE = {("C%02d" % i): PENDING for i in range(1, 21)}
